@@ -75,6 +75,15 @@ def _segm(case, img):
         segm.remove_label(int(segm.labels[case['gap_idx'] % segm.nlabels]))
     elif gap == 'reassign' and segm.nlabels >= 2:
         segm.reassign_label(int(segm.labels[0]), int(segm.max_label) + case['gap_start'])
+    if case.get('first_pass'):
+        # the checked call deblends the result of an earlier, shallower pass
+        from photutils.segmentation import deblend_sources
+        fp = case['first_pass']
+        with warnings.catch_warnings():
+            warnings.simplefilter('ignore')
+            segm = deblend_sources(img, segm, case['det_npixels'], nlevels=8,
+                                   contrast=fp['contrast'], relabel=fp['relabel'],
+                                   connectivity=case['conn'], progress_bar=False)
     return segm
 
 
@@ -137,6 +146,9 @@ def check_refine(case, ctx):
     ctx.event('relabel_%s' % case['relabel'])
     if case.get('gap'):
         ctx.event('gap_' + case['gap'])
+    if case.get('first_pass'):
+        ctx.event('input_already_deblended')
+        require(True, 'x')
     # 7. input untouched
     require(bit_equal(segm.data, s0) and segm.data.dtype == dt0,
             'input_modified', 'input segmentation data changed')
@@ -148,7 +160,9 @@ def check_refine(case, ctx):
     if case['contrast'] == 1:
         ctx.event('contrast_1')
         require(np.array_equal(o, s0) and o.dtype == dt0, 'contrast1_not_copy')
-        require(len(ref.deblended_labels) == 0, 'contrast1_deblended')
+        # "returns the input unchanged": that includes whatever deblending
+        # bookkeeping the input itself carried from an earlier pass
+        require(_dmap(ref) == _dmap(segm), 'contrast1_deblended')
         return
     # 1. footprint
     require(np.array_equal(o > 0, s0 > 0), 'footprint_changed',
@@ -216,6 +230,7 @@ def check_refine(case, ctx):
             and np.array_equal(ref.areas, fr.areas), 'output_attrs_vs_fresh')
     # ---- SourceFinder(deblend=True) == detect_sources + deblend_sources
     if not case.get('gap') and case.get('labels_subset') is None \
+            and not case.get('first_pass') \
             and case['relabel'] and case['det_npixels'] == case['npixels']:
         from photutils.segmentation import SourceFinder
         with warnings.catch_warnings():
@@ -289,7 +304,12 @@ def refine_cases(draw):
         'thr': draw(st.floats(0.8, 4.0)),
         'det_npixels': draw(st.integers(3, 8)),
         'conn': draw(st.sampled_from([8, 8, 4])),
-        'npixels': draw(st.one_of(st.integers(1, 12), st.just(-1))),
+        # incl. values so large that no segment is eligible (2*npixels rule)
+        'npixels': draw(st.one_of(st.integers(1, 12), st.just(-1),
+                                  st.sampled_from([300, 5000]))),
+        'first_pass': draw(st.sampled_from([None, None, None,
+                                            {'contrast': 0.3, 'relabel': False},
+                                            {'contrast': 0.1, 'relabel': True}])),
         'nlevels': draw(st.sampled_from([1, 2, 8, 16, 32])),
         'contrast': draw(st.sampled_from([0.0, 0.001, 0.001, 0.001, 0.01, 0.05, 0.3, 1])),
         'mode': draw(st.sampled_from(['exponential', 'linear', 'sinh'])),
